@@ -5,17 +5,29 @@ VERIF = os.path.dirname(os.path.dirname(os.path.abspath(__file__)))
 ASSUME = ('Instances of each function pattern in the probe catalogue (and, thorough tier, the repository tests/examples) stand for all '
           'instantiations; LP64 little-endian host; clang 14 front end; library models in DESIGN §7.')
 CLAIMS = {
- 'C19': dict(technique='static inventory of static-storage objects + structural rules (clang AST of patterns and instances)',
-             text='Complete for the stated clause set: every object with static storage duration under include/nop is enumerated from the AST '
-                  'and must be thread_local or immutable; ThreadLocal storage/first-init/Clear and encoder statelessness are checked on every '
-                  'instance. A race between operations on distinct objects needs shared mutable state, of which the inventory shows none.',
-             ref='§4 C19'),
  'C10': dict(technique='abstract interpretation of status locals (Untested/Ok/Failed) over every function instance; rules SD1-SD4',
              text='Every status-producing call site under include/nop (about 240 file:line:col sites) is a fault position; the interpreter proves per pattern '
                   'that the status is consumed, tested before the next I/O step, that the operation stops on failure and that the failure is returned '
                   'verbatim. Pattern-level verdicts do not depend on the instantiation, so nested containers, later elements, padding and every type '
                   'combination are covered. Prepare-failure => nothing written is SD2 on SerializerCommon::Write.',
              ref='§3 E3, §4 C10'),
+ 'C16': dict(technique='symbolic effect summaries (all paths, polynomial guards) of every BoundedReader/BoundedWriter member; inductive step on pos <= limit',
+             text='Complete for the two classes: each of the 12 primitives is an inductive step on pos <= limit, with the byte count derived from the '
+                  'signature. Guard (overflow-safe normal form), refusal category and effect-freeness, single delegation with the caller\'s arguments, '
+                  'exact counting only after wrapped success, padding to exactly the limit, handle forwarding and the initial state are each decided '
+                  'on all paths of the instantiated bodies.',
+             ref='§4 C16'),
+ 'C17': dict(technique='symbolic effect summaries of every reader/writer primitive compared with one role specification; byte-lane terms; primitive inventory',
+             text='Each primitive of the 5 buffer-family, 2 stream and 2 fd classes is compared, on all paths, with the single specification of its role '
+                  '(limit test, guard, refusal, bytes moved, position update, observable stream operations, syscall result tests); the constexpr '
+                  'writer\'s byte lanes are compared with the little-endian layout; the primitive inventory covers all 11 classes. Classes meeting '
+                  'one specification agree with each other up to the first failing call. Library semantics of iostream/read(2) are modelled, not analysed.',
+             ref='§4 C17'),
+ 'C19': dict(technique='static inventory of static-storage objects + structural rules (clang AST of patterns and instances)',
+             text='Complete for the stated clause set: every object with static storage duration under include/nop is enumerated from the AST '
+                  'and must be thread_local or immutable; ThreadLocal storage/first-init/Clear and encoder statelessness are checked on every '
+                  'instance. A race between operations on distinct objects needs shared mutable state, of which the inventory shows none.',
+             ref='§4 C19'),
 }
 NA = {}
 props = [json.loads(l) for l in open(os.path.join(VERIF, 'properties.jsonl'))]
